@@ -7,6 +7,7 @@ replaces an earlier row for the same (seed, check):
   2-second.out   neighbouring checks for the seeds their own check does not detect; seeds touching html/publish.go on afec69b
   3-final.out    every seed of a property whose check changed after 1-main (round 5 additions), /repo afec69b
   4-*.out        later targeted runs
+  5-round6.out   the 40 changes of round 6 against the final checks, /repo e0e1cd9
 """
 import glob, os, re, subprocess, collections
 
@@ -16,6 +17,9 @@ REMARK = {
     ("C19-wt4-c19-2", "C19"): "the change makes the site depend on Go's map order, so which cases fail differs from run to run; since `MinReproFor` one confirmed replay is enough for these signatures",
     ("C10-wt6-c10-3", "C10"): "not detected: see RESULTS5.md, row C10-3",
     ("C10-wt6-c10-3", "C09"): "not detected: see RESULTS5.md, row C10-3",
+    ("C15-wt7-c15-2", "C15"): "not detected: needs two goroutines evaluating queries; C15 quantifies over programs and inputs (RESULTS6.md, row C15-2)",
+    ("C06-wt7-c06-1", "C06"): "a data race under a sequential property: reported by the race monitor of C11 and C19 (rows below)",
+    ("C12-wt7-c12-1", "C12"): "a data race under a sequential property: reported by the race monitor of C11 and C19 (rows below)",
 }
 
 
@@ -34,7 +38,7 @@ def main():
     seeds = sorted({k[0] for k in rows})
     detected = {s: any(rows[k][2] == "1" for k in rows if k[0] == s) for s in seeds}
     out = []
-    out.append("# Sweep of all %d seeded changes (rounds 1-5) against the final checks\n" % len(seeds))
+    out.append("# Sweep of all %d seeded changes (rounds 1-6) against the final checks\n" % len(seeds))
     out.append("Run by `tools/parsweep.sh` on copies of the repository and of /verif, three or four changes at a time, quick tier; "
                "ported patches where the original no longer applies to the repaired tree. Exit 1 = VIOLATION reported; `exhaustive=false` "
                "means a unit was cut short (a hang watchdog or a worker death attributed to a case - both are findings). The raw outputs are in "
